@@ -82,6 +82,7 @@ class Assembled:
         self.log = []        # extraction log
         self.problems = []   # lost anchors etc. (=> UNDECIDED)
         self.changed = {}    # module -> True if current != pinned
+        self.degrade = set() # (module, item key) to emit in degraded form
 
     def add(self, s):
         self.text += s
@@ -146,6 +147,9 @@ def assemble_module(asm, name, with_contracts=True):
             except WeaveError as e:
                 asm.problems.append('overlay-mismatch %s::%s: %s' % (name, k, e)); continue
             out, changed = weave(atoks, ptoks, ctoks)
+            if (name, k) in asm.degrade:
+                out = degrade(out, 'fn' if k.startswith('fn ') else 'impl')
+                asm.log.append('%s: DEGRADED %s: the code of this item was restructured so that the proof overlay of its body no longer applies; its contract is ASSUMED (external_body) on this run' % (name, k))
             body.append((k, untokenize(out, atail), True, changed))
         else:
             body.append((k, ait['text'], True, 0))   # ghost / overlay-only item
@@ -169,9 +173,10 @@ def assemble_module(asm, name, with_contracts=True):
     asm.add('} // mod %s\n' % name)
 
 
-def assemble(modules, spec_files=(), with_contracts=True, main='fn main() {}\n', main_file=None):
+def assemble(modules, spec_files=(), with_contracts=True, main='fn main() {}\n', main_file=None, degrade_items=()):
     if main_file: main = open(os.path.join(SPEC, main_file)).read()
     asm = Assembled()
+    asm.degrade = set(degrade_items)
     asm.add('#![feature(allocator_api, print_internals)]\n#![allow(unused_imports, dead_code, unused_variables, unused_mut, unused_assignments, non_snake_case, unused_parens, unused_braces)]\n'
             'use vstd::prelude::*;\n')
     if with_contracts:
